@@ -1,14 +1,15 @@
 #!/bin/bash
-# usage: tools/run_mutants.sh <ID> [<ID>...]   — runs every mutants/<ID>/*.diff against ./check <ID> quick,
-# appends "ID patch exit=<code> <first VIOLATION/FAILURE line>" to mutants/RESULTS.txt
+# usage: tools/run_mutants.sh <ID> [<ID>...]   — runs every mutants/<ID>/*.diff against ./check <ID> quick in the
+# private mutant workspace /tmp/ws-mut (created with `tools/agent_ws.sh mut`; /repo is not touched) and appends
+# "ID patch exit=<code> <first FAILURE line>" to mutants/RESULTS.txt
 cd /verif
 for ID in "$@"; do
   for P in mutants/$ID/*.diff; do
     [ -f "$P" ] || continue
-    case "$P" in *MISSED*) echo "$ID $(basename $P) skipped (documented as outside the property)" >> mutants/RESULTS.txt; continue;; esac
-    OUT=$(tools/mutant.sh "$P" "$ID" 2>&1)
+    case "$P" in *MISSED*|*equivalent*) echo "$ID $(basename $P) skipped (documented as equivalent / outside the property)" >> mutants/RESULTS.txt; continue;; esac
+    OUT=$(/tmp/ws-mut/run_mutant.sh "$P" "$ID" 2>&1)
     CODE=$(echo "$OUT" | grep -o 'exit=[0-9]*' | tail -1)
-    LINE=$(echo "$OUT" | grep -m1 -E 'FAILURE|INCONCLUSIVE|patch does not apply' | cut -c1-200)
+    LINE=$(echo "$OUT" | grep -m1 -E 'FAILURE|INCONCLUSIVE|patch does not apply' | cut -c1-220)
     echo "$ID $(basename $P) $CODE $LINE" >> mutants/RESULTS.txt
   done
 done
